@@ -154,7 +154,11 @@ def register(reg, prog):
                     z3.Not(ex.read_field(st, msg, 'mid', MF['mid']).is_none()),
                     tuning_ok_formula(ex, st, msg), msg.t >= 1, msg.t < st.alloc,
                     ex.read_field(st, msg, 'transport_tuning', MF['transport_tuning']).t < st.alloc)
-        return z3.ForAll([r, j], z3.Implies(z3.And(z3.Select(ex.dict_dom(st, bl), r), 0 <= j, j < n), ok))
+        r2 = z3.Const('inv_br2', rs)
+        lst2 = from_term(bl.v, z3.Select(ex.dict_vals(st, bl), r2))
+        own = z3.ForAll([r, r2], z3.Implies(z3.And(z3.Select(ex.dict_dom(st, bl), r), z3.Select(ex.dict_dom(st, bl), r2), r != r2), lst.t != lst2.t))
+        alloc = z3.ForAll([r], z3.Implies(z3.Select(ex.dict_dom(st, bl), r), z3.And(lst.t >= 1, lst.t < st.alloc, n >= 0)))
+        return z3.And(own, alloc, z3.ForAll([r, j], z3.Implies(z3.And(z3.Select(ex.dict_dom(st, bl), r), 0 <= j, j < n), ok)))
 
     def wf_formula(ex, st, mm, allow_shutdown):
         rec, act, bl, pb = dicts(ex, st, mm)
